@@ -176,6 +176,20 @@ impl<'a> Tr<'a> {
         let v = env.get(name).cloned().ok_or_else(|| format!("internal: live local `{}` not in scope", name))?;
         match &v.ty {
             Ty::Elem => Ok(Comp::Op("drop_elem".into(), vec![v], Ty::Unit)),
+            // the buffer a constructor is building: <CircularBuffer as Drop>::drop
+            Ty::Buf => {
+                let key = "buf_drop";
+                if !self.fns.contains_key(key) {
+                    return Err("internal: the destructor of the buffer is not among the functions".into());
+                }
+                if !self.done.contains_key(key) {
+                    self.need = Some(key.to_string());
+                    return Err(format!("the destructor of the buffer (`{}`) has to be translated first", key));
+                }
+                self.calls.insert(key.to_string());
+                self.user = true;
+                Ok(Comp::Op(format!("gen_{}", key), vec![], Ty::Unit))
+            }
             Ty::Guard(n) => {
                 let nested = self.nested.get(n).cloned().ok_or_else(|| format!("internal: no nested type {}", n))?;
                 let body = match nested.drop_body {
@@ -297,6 +311,9 @@ impl<'a> Tr<'a> {
                 if ty == Ty::Unit {
                     return unsupported("unit-valued expression used as a value", sp);
                 }
+                if ty == Ty::NewBuf {
+                    return unsupported("a buffer by value used as a value (only as what a constructor returns)", sp);
+                }
                 let n = self.fresh();
                 self.emit(pre, env, Some(n.clone()), c)?;
                 Ok(Val::atom(n, ty))
@@ -400,13 +417,16 @@ impl<'a> Tr<'a> {
             let n = self.fresh();
             self.emit(pre, env, Some(n.clone()), Comp::Op("items_slice".into(), vec![], Ty::Slice))?;
             Val::atom(n, Ty::Slice)
-        } else if b.ty == Ty::Slice {
+        } else if matches!(b.ty, Ty::Slice | Ty::OSlice(_)) {
             b
         } else {
             return Err(format!("{}: indexed expression has type {}, expected a slice", at(ix.expr.span()), b.ty.show()));
         };
         match range {
             None => {
+                if base.ty != Ty::Slice {
+                    return unsupported("element of a view of another buffer", ix.span());
+                }
                 let i = self.typed(&ix.index, env, pre, &Ty::Usize, "slice index")?;
                 Ok(Comp::Op("sl_index".into(), vec![base, i], Ty::Ref))
             }
@@ -417,7 +437,8 @@ impl<'a> Tr<'a> {
                 }
                 let a = a.unwrap_or_else(|| Val::atom("0", Ty::Usize));
                 let b = b.unwrap_or_else(|| Val::app(format!("slen {}", base.paren()), Ty::Usize));
-                Ok(Comp::Op("sl_range".into(), vec![base, a, b], Ty::Slice))
+                let t = base.ty.clone();
+                Ok(Comp::Op("sl_range".into(), vec![base, a, b], t))
             }
         }
     }
@@ -625,6 +646,14 @@ impl<'a> Tr<'a> {
                         if v.ty == Ty::Elem {
                             self.live.retain(|n| n != x);
                         }
+                        // the buffer a constructor has built, returned
+                        if v.ty == Ty::Buf && self.live.iter().any(|n| n == x) {
+                            if self.me.ret != Ty::NewBuf || !tail || self.in_loop {
+                                return unsupported("a buffer by value used other than as what the constructor returns", p.span());
+                            }
+                            self.live.retain(|n| n != x);
+                            return Ok(Comp::Ret(Val::atom("tt", Ty::NewBuf)));
+                        }
                         Ok(Comp::Ret(v))
                     }
                     ["N"] if self.me.has_n => Ok(Comp::Op("get_cap".into(), vec![], Ty::Usize)),
@@ -684,8 +713,12 @@ impl<'a> Tr<'a> {
                     // `*x` of a `&usize` or of a `&mut` parameter: the value; `*self` of a Copy record
                     if let Some(x) = path_ident(&u.expr) {
                         if let Some(v) = env.get(&x) {
-                            if matches!(v.ty, Ty::Usize | Ty::Slice | Ty::Rec(_)) {
+                            if matches!(v.ty, Ty::Usize | Ty::Slice | Ty::Rec(_) | Ty::List) {
                                 return Ok(Comp::Ret(v.clone()));
+                            }
+                            // `*item` of a `&T` handed out by an adaptor, T: Copy: the element
+                            if v.ty == Ty::ElemRef {
+                                return Ok(Comp::Ret(Val { ty: Ty::Elem, ..v.clone() }));
                             }
                         }
                     }
@@ -737,7 +770,9 @@ impl<'a> Tr<'a> {
                                 self.emit(pre, env, Some(n.clone()), Comp::Op("items_slice".into(), vec![], Ty::Slice))?;
                                 Ok(Comp::Ret(Val::atom(n, Ty::Slice)))
                             }
-                            Ty::Slice | Ty::List => Ok(Comp::Ret(v)),
+                            Ty::Slice | Ty::List | Ty::OSlice(_) => Ok(Comp::Ret(v)),
+                            // a `&usize` is the number
+                            Ty::Usize if r.mutability.is_none() => Ok(Comp::Ret(v)),
                             _ => unsupported(
                                 "`&` / `&mut` of something other than an indexing expression, `[]`, the items array or a slice",
                                 other.span(),
@@ -766,7 +801,7 @@ impl<'a> Tr<'a> {
                 let mut vs = vec![];
                 for x in &t.elems {
                     let v = self.val(x, env, pre)?;
-                    if v.ty.coq().is_err() {
+                    if v.ty.coq().is_err() || v.ty == Ty::NewBuf {
                         return unsupported(&format!("{} inside a tuple", v.ty.show()), x.span());
                     }
                     vs.push(v);
@@ -902,6 +937,9 @@ impl<'a> Tr<'a> {
         if tname == "IntoIter" {
             return unsupported("construction of an IntoIter (the wrapped buffer is the state itself)", s.span());
         }
+        if tname == "CircularBuffer" {
+            return self.buffer_lit(s, &given, env, pre);
+        }
         let sc = match schema(&tname) {
             Some(sc) => sc,
             None => return unsupported(&format!("struct expression of type `{}`", tname), s.span()),
@@ -964,21 +1002,81 @@ impl<'a> Tr<'a> {
         Ok(Comp::Ret(Val::app(format!("{} {}", sc.ctor, args.join(" ")), Ty::Rec(tname))))
     }
 
+    /// `Self { size, start, items }` as the value of a constructor of CircularBuffer: the fields are
+    /// written, in the order they are given, to the memory that receives the result (the state; see
+    /// Ty::NewBuf); an items array that is uninitialised memory leaves the array as it is
+    fn buffer_lit(&mut self, s: &syn::ExprStruct, given: &[(String, &Expr)], env: &mut Env, pre: &mut Vec<Pre>) -> Res<Comp> {
+        if self.me.ret != Ty::NewBuf || self.in_loop {
+            return unsupported(
+                "construction of a CircularBuffer outside the tail of a constructor (in the model the buffer is the state of the computation, not a value)",
+                s.span(),
+            );
+        }
+        let mut seen: Vec<&str> = vec![];
+        // evaluated in the order written; written to the result after all of them are evaluated
+        let mut writes: Vec<(&'static str, Val)> = vec![];
+        for (n, e) in given {
+            match n.as_str() {
+                "size" | "start" => {
+                    let v = self.typed(e, env, pre, &Ty::Usize, "field of the buffer")?;
+                    writes.push((if n == "size" { "set_size" } else { "set_start" }, v));
+                }
+                "items" => {
+                    let v = self.val(e, env, pre)?;
+                    if v.ty != Ty::UninitItems {
+                        return unsupported(&format!("items array initialised by a {} (only uninitialised memory is known)", v.ty.show()), e.span());
+                    }
+                }
+                other => return unsupported(&format!("field `{}` of CircularBuffer", other), e.span()),
+            }
+            if seen.contains(&n.as_str()) {
+                return unsupported("field given twice", e.span());
+            }
+            seen.push(n.as_str());
+        }
+        if seen.len() != 3 {
+            return unsupported("struct expression of CircularBuffer without all of size, start, items", s.span());
+        }
+        for (op, v) in writes {
+            self.emit(pre, env, None, Comp::Op(op.into(), vec![v], Ty::Unit))?;
+        }
+        Ok(Comp::Ret(Val::atom("tt", Ty::NewBuf)))
+    }
+
     fn binary(&mut self, b: &syn::ExprBinary, env: &mut Env, pre: &mut Vec<Pre>) -> Res<Comp> {
         no_attrs(&b.attrs, b.span())?;
         match b.op {
             BinOp::And(_) | BinOp::Or(_) => {
                 let l = self.typed(&b.left, env, pre, &Ty::Bool, "operand of `&&` / `||`")?;
                 let mut rpre = vec![];
-                let r = self.typed(&b.right, env, &mut rpre, &Ty::Bool, "operand of `&&` / `||`")?;
-                // the right operand is only evaluated sometimes: it may read the
-                // state but must not be able to fail or write
+                let mut renv = env.clone();
+                let saved = self.can_return;
+                self.can_return = false;
+                let r = self.typed(&b.right, &mut renv, &mut rpre, &Ty::Bool, "operand of `&&` / `||`");
+                self.can_return = saved;
+                let r = r?;
+                // the right operand is only evaluated sometimes: when it does more than read the state
+                // it is a computation of its own, run on one side of a test of the left operand
                 if !rpre.iter().all(|p| p.harmless()) {
-                    return unsupported(
-                        "short-circuit operator whose right operand performs checked arithmetic or a call",
-                        b.span(),
-                    );
+                    // (the function's own `T` arguments with a destructor would have to be guarded in it)
+                    if !self.live.is_empty() || self.in_loop {
+                        return unsupported(
+                            "short-circuit operator whose right operand performs checked arithmetic or a call, while locals with a destructor are alive",
+                            b.span(),
+                        );
+                    }
+                    if !self.changed(env, &renv).is_empty() {
+                        return unsupported("short-circuit operator whose right operand assigns to variables", b.span());
+                    }
+                    let rc = wrap(rpre, Comp::Ret(r));
+                    self.harmless = false;
+                    return Ok(if matches!(b.op, BinOp::And(_)) {
+                        Comp::If(l, Box::new(rc), Box::new(Comp::Ret(Val::atom("false", Ty::Bool))), Ty::Bool)
+                    } else {
+                        Comp::If(l, Box::new(Comp::Ret(Val::atom("true", Ty::Bool))), Box::new(rc), Ty::Bool)
+                    });
                 }
+                *env = renv;
                 pre.append(&mut rpre);
                 let op = if matches!(b.op, BinOp::And(_)) { "&&" } else { "||" };
                 Ok(Comp::Ret(Val::app(format!("{} {} {}", l.paren(), op, r.paren()), Ty::Bool)))
@@ -987,6 +1085,18 @@ impl<'a> Tr<'a> {
                 // both operands are evaluated, left first; the comparison itself is pure
                 let l = self.val(&b.left, env, pre)?;
                 let r = self.val(&b.right, env, pre)?;
+                let is_elems = |t: &Ty| matches!(t, Ty::Slice | Ty::OSlice(_) | Ty::List);
+                if matches!(b.op, BinOp::Eq(_)) && is_elems(&l.ty) && is_elems(&r.ty) {
+                    return self.slices_eq(&l, &r, env, pre, b.span());
+                }
+                if matches!(b.op, BinOp::Eq(_)) && l.ty == Ty::Buf && l.tm == "<buffer>" && r.ty == Ty::List {
+                    // `self == slice`: <CircularBuffer as PartialEq<[U]>>::eq
+                    let key = match self.index.get(&(Some("CircularBuffer".to_string()), "eq<[U]>".to_string())) {
+                        Some(k) => k.clone(),
+                        None => return unsupported("`==` of the buffer and a slice (PartialEq<[U]> is not among the functions)", b.span()),
+                    };
+                    return self.call_known(&key, Some((&b.left, None, l)), vec![crate::call::Arg::V(r)], env, pre, b.span());
+                }
                 if l.ty != r.ty {
                     return unsupported("comparison of values of different types", b.span());
                 }
@@ -1206,8 +1316,15 @@ impl<'a> Tr<'a> {
                 }
                 v
             }
-            other => vec![self.typed(other, env, pre, &Ty::Bound, "matched value")?],
+            other => {
+                let v = self.val(other, env, pre)?;
+                if v.ty != Ty::Bound && v.ty != Ty::Ordering {
+                    return Err(format!("{}: matched value has type {}, expected a Bound or an Ordering", at(other.span()), v.ty.show()));
+                }
+                vec![v]
+            }
         };
+        let on_ordering = scrut.len() == 1 && scrut[0].ty == Ty::Ordering;
         let mut arms: Vec<(String, Comp)> = vec![];
         let mut ty = Ty::Any;
         let live0 = self.live.clone();
@@ -1234,7 +1351,7 @@ impl<'a> Tr<'a> {
             } else {
                 let mut ps = vec![];
                 for p in pats {
-                    ps.push(self.bound_pattern(p, &mut env_a)?);
+                    ps.push(if on_ordering { self.ordering_pattern(p)? } else { self.bound_pattern(p, &mut env_a)? });
                 }
                 ps.join(", ")
             };
@@ -1267,6 +1384,24 @@ impl<'a> Tr<'a> {
         self.harmless = false;
         self.live = live0;
         Ok(Comp::Match(scrut, arms, ty))
+    }
+
+    /// `Ordering::Less` / `Ordering::Equal` / `Ordering::Greater` / `_`
+    fn ordering_pattern(&mut self, p: &syn::Pat) -> Res<String> {
+        match p {
+            syn::Pat::Wild(_) => Ok("_".into()),
+            syn::Pat::Path(pp) if pp.attrs.is_empty() && pp.qself.is_none() => {
+                let s: Vec<String> = pp.path.segments.iter().map(|s| s.ident.to_string()).collect();
+                let s: Vec<&str> = s.iter().map(|x| x.as_str()).collect();
+                match s.as_slice() {
+                    ["Ordering", "Less"] => Ok("Lt".into()),
+                    ["Ordering", "Equal"] => Ok("Eq".into()),
+                    ["Ordering", "Greater"] => Ok("Gt".into()),
+                    _ => unsupported(&format!("pattern `{}`", s.join("::")), p.span()),
+                }
+            }
+            other => unsupported("pattern (only Ordering::Less, Ordering::Equal, Ordering::Greater and `_` are known here)", other.span()),
+        }
     }
 
     /// `Bound::Included(x)` / `Bound::Excluded(x)` / `Bound::Unbounded` / `_`
